@@ -16,7 +16,8 @@ returned by kms.encrypt_dek, the nonce, and the seed buffer only after seal_in_p
 UnboundKey::new and kms.encrypt_dek; the AEAD seal is applied once to a buffer freshly copied from the seed (a seal in a retry loop must re-create the buffer).  (4) Encrypt/decrypt agreement: same AEAD algorithm constant and associated data on both sides; fields are
 written and read in the same order (u16 LE wrapped-DEK length, u16 LE nonce length, wrapped DEK, nonce, ciphertext) with LittleEndian on both sides.
 (5) Acceptance covers production: the minimum blob length decrypt_seed accepts is at most the smallest blob encrypt_seed can emit over the
-quantified ranges (wrapped DEK 16 bytes, plaintext 32 bytes: 4 + 16 + nonce + 32 + tag).
+quantified ranges (wrapped DEK 16 bytes, plaintext 32 bytes: 4 + 16 + nonce + 32 + tag), and a wrapped-DEK length is refused only when it does not fit the blob
+(evaluated on the blobs encrypt_seed emits for wrapped keys of 16 .. 65535 bytes).
 """
 NOT_DECIDED = "that any modification of the blob is detected (AEAD strength, trusted); behaviour of the cloud providers"
 TRUSTED = ["ring AEAD seal/open", "ring SystemRandom"]
